@@ -407,6 +407,35 @@ theorem class_round_trip_extras_example :
   decide
 
 
+/-! ### attributes holding None -/
+
+/-- **attributes holding None** (an Optional field given None explicitly, with or without `_ignore_none`):
+    they are not serialized, and the round trip gives back the instance with those attributes unset — which
+    reads the same (`x.f is None` either way).  `attrsN` = the instance's attributes, `attrs` = the ones that
+    are not None. -/
+theorem class_round_trip_none_attrs_partial (O : Oracles) (opts : DeserOpts) (c : ClassOpts)
+    (fields : List (String × FieldDecl)) (defaults attrsN attrs : List (String × PyVal))
+    (hN : attrsN.filter (fun a => !a.2.isNone) = attrs)
+    (hf : inFrag O (.struct c fields defaults) (.inst c.name attrs) = true) :
+    ∃ j, serialize O (.struct c fields defaults) (.inst c.name attrsN) = .ok j ∧ isJson j = true
+      ∧ deserialize O opts (.struct c fields defaults) j = .ok (.inst c.name attrs) := by
+  rcases class_round_trip_partial O opts c fields defaults (.inst c.name attrs) hf with ⟨j, h1, h2, h3⟩
+  refine ⟨j, ?_, h2, h3⟩
+  have hff : attrs.filter (fun a => !a.2.isNone) = attrs := by
+    rw [← hN, List.filter_filter]; simp
+  simp only [serialize, ser, sInst, beq_self_eq_true, Bool.true_or, Bool.not_true, Bool.false_eq_true,
+    if_false, hN] at h1 ⊢
+  rw [hff] at h1
+  exact h1
+
+theorem class_round_trip_none_attrs_example :
+    (match serialize exO exInner (.inst "Inner" [("a", .int 5), ("b", .none)]) with
+      | .ok (.dict [(.str "a", .int 5)]) => true | _ => false) = true
+    ∧ (match deserialize exO {} exInner (.dict [(.str "a", .int 5)]) with
+      | .ok (.inst "Inner" [("a", .int 5)]) => true | _ => false) = true := by
+  decide
+
+
 /-! ### the extension kinds (Sem/SerdeX.lean): DecimalNumber, Enum by value, DateField / DateTime -/
 
 /-- **C05 on the extension kinds (field level)** -/
